@@ -50,6 +50,9 @@ def skeletons(tier):
     progs.append(("hidden-from-root", {
         "funcs": [mkfunc("R", calls=[call("D"), call("H", "hidden")], rich=False), mkfunc("D", rich=False), mkfunc("H")],
         "vars": {}, "hidden": True}))
+    progs.append(("hidden-callee-memoized-first", {
+        "funcs": [mkfunc("R", calls=[call("H", "hidden")], rich=False), mkfunc("H", rich=False)],
+        "vars": {}, "hidden": True, "callee_first": True}))
     progs.append(("hidden-from-helper", {
         "funcs": [mkfunc("R", calls=[call("D")], rich=False), mkfunc("D", kind="plain", calls=[call("H", "hidden")], rich=False),
                   mkfunc("H", rich=False)],
@@ -63,6 +66,8 @@ def calls_for(prog):
         if f["kind"] == "memento" and f["module"] == "a":
             calls.append((f["name"], (1,), {}, None))
             calls.append((f["name"], (), {}, None))
+    if prog.get("callee_first"):
+        return [("H", (1,), {}, None), ("R", (1,), {}, None), ("R", (), {}, None), ("H", (), {}, None)]
     if prog.get("hidden"):
         calls.insert(0, ("R", (1,), {}, "force_local"))
         calls.insert(1, ("R", (1,), {}, "ctx"))
@@ -72,6 +77,8 @@ def calls_for(prog):
 
 def site_role(prog, site, fname):
     kind, where, what = site
+    if kind == "revert":
+        return "revert"
     if kind in ("feature", "retarget"):
         f = next(x for x in prog["funcs"] if x["name"] == where)
         role = "self" if where == fname else "dep"
@@ -87,7 +94,10 @@ def history_case(args):
     name, p0 = skeletons(tier)[pi]
     editions = [p0]
     for s in sites:
-        nxt = progen.apply_edit(editions[-1], s)
+        if s[0] == "revert":
+            nxt = editions[s[1]]  # back to an earlier edition (A -> B -> A)
+        else:
+            nxt = progen.apply_edit(editions[-1], s)
         if nxt is None:
             return {"evaluations": 0}
         editions.append(nxt)
@@ -166,6 +176,8 @@ def run(ctx):
             tasks.append((pi, (), delivery, ctx.tier))
             for s in sites:
                 tasks.append((pi, (s,), delivery, ctx.tier))
+                if delivery != "inproc:reload" or thorough:
+                    tasks.append((pi, (s, ("revert", 0, None)), delivery, ctx.tier))
             if L >= 2 and delivery != "inproc:reload":
                 for s1, s2 in itertools.product(sites, repeat=2):
                     if s1[0] == "feature" and s2[0] == "feature" and s1[1] == s2[1] and s1[2] != s2[2] and len(sites) > 30:
